@@ -99,6 +99,7 @@ def _check_main(run, P):
     run.do(_case_length, run, P)
     run.do(_translate_path, run, P)
     run.do(_maps_live, run, P)
+    run.do(_no_prefill, run, P)
 
 
 PROBE = [chr(i) for i in range(32, 127)] + list("\u00e9\u03b5\u00b2\ufb01\u0661\u0394\u2081\u00aa\u4e2d")
@@ -566,6 +567,10 @@ def _refcount(run, P):
                "'<p>K' and '<p>k') share one count component")
 
 
+# what carries identifiers of the current phase: the manager's answers and text printed with them
+SOURCES = ("self._name_manager", "self._expr_mapper(", "self._expr_mapper.rec(", "self._expr(")
+
+
 def _no_consumer_cache(run, P):
     """Classes that hold a name manager do not remember its answers: the answers
     change when the manager's local map is reset."""
@@ -584,14 +589,14 @@ def _no_consumer_cache(run, P):
                 tainted = set()
                 for x in ast.walk(meth.node):
                     if isinstance(x, ast.Assign) and len(x.targets) == 1 and isinstance(x.targets[0], ast.Name) \
-                            and "self._name_manager" in ast.unparse(x.value):
+                            and any(k_ in ast.unparse(x.value) for k_ in SOURCES):
                         tainted.add(x.targets[0].id)
                 for x in ast.walk(meth.node):
                     if isinstance(x, ast.Assign) and any(
                             isinstance(t, ast.Subscript) and (dotted(t.value) or "").startswith("self.")
                             for t in x.targets):
                         v = ast.unparse(x.value)
-                        if "self._name_manager" in v or any(
+                        if any(k_ in v for k_ in SOURCES) or any(
                                 isinstance(y, ast.Name) and y.id in tainted for y in ast.walk(x.value)):
                             bad.append((meth, x))
             n += 1
@@ -697,6 +702,19 @@ def _case_length(run, P):
                     src = ast.unparse(tgt.node)
                     folds = any(k in src for k in (".lower()", ".upper()", ".casefold()"))
                     bounded = _has_length_bound(tgt)
+            if tf is not None:
+                tgt2 = P.resolve_expr(init, tf)
+                if isinstance(tgt2, Func) and tgt2.fq != f"{UTILS}.make_identifier_from_name":
+                    rets = [r_ for r_ in ast.walk(tgt2.node) if isinstance(r_, ast.Return)]
+                    byp = [r_ for r_ in rets if r_.value is None or not any(
+                        isinstance(y, ast.Call) and (dotted(y.func) or "").split(".")[-1]
+                        == "make_identifier_from_name" for y in ast.walk(r_.value))]
+                    run.ob("C13.charset", tgt2, byp[0] if byp else tgt2.node, bool(rets) and not byp,
+                           construct=f"{tgt2.name}: every result comes out of make_identifier_from_name"
+                                     + (f" (not: {norm(byp[0], 40)})" if byp else ""),
+                           why="a shortcut for names that 'already are identifiers' by Python's "
+                               "Unicode notion (str.isidentifier) lets non-ASCII letters through "
+                               "to a target that accepts ASCII only")
             run.ob("C13.case", init, n, folds,
                    construct=f"{norm(n, 90)}: translate function folds case",
                    why="Fortran compares identifiers case-insensitively and the unique-"
@@ -789,6 +807,26 @@ def _translate_path(run, P):
                            "'RHS' then get two identifiers that Fortran cannot tell apart")
     if n < 1:
         raise AnalysisError("KeyToUniqueNameMap: no call of the underlying name generator found")
+
+
+def _no_prefill(run, P):
+    """Names reserved for the generator are made known to the *generator*, never
+    entered as keys of a map that user names are looked up in."""
+    for cls_fq in ("dagrt.codegen.fortran.FortranNameManager", "dagrt.codegen.python.PythonNameManager"):
+        C = P.cls(cls_fq)
+        init = C.methods["__init__"]
+        for s_ in ast.walk(init.node):
+            if isinstance(s_, ast.Assign) and isinstance(s_.value, ast.Call) \
+                    and dotted(s_.value.func) == "KeyToUniqueNameMap":
+                st = kwarg(s_.value, "start", 0)
+                ok = st is None or (isinstance(st, ast.Dict) and all(
+                    isinstance(k, ast.Constant) and isinstance(k.value, str) and k.value.startswith("<")
+                    for k in st.keys))
+                run.ob("C13.reserved", init, s_, ok,
+                       construct=f"{C.name}: {norm(s_.targets[0])} is pre-filled only with the generator's "
+                                 f"own tagged names ({norm(st, 50) if st is not None else 'nothing'})",
+                       why="a reserved identifier entered as a *key* is what a user variable of that "
+                           "spelling is mapped to - without prefix, onto the reserved identifier itself")
 
 
 def _maps_live(run, P):
